@@ -206,6 +206,25 @@ def masking(index: RepoIndex, rep, rule: str, pipe: Pipeline) -> None:
         loop_ok = bool(e.loops) and src(e.loops[-1][0]) == pos and \
             src(e.loops[-1][1]) in (f'{g}.area.positions()', f"{g}.area.positions('all')")
         yx = None
+        extra_parts = []
+        if not loop_ok and e.loops and src(e.loops[-1][0]) == pos and \
+                isinstance(e.loops[-1][1], ast.Name):
+            # the loop runs over a list collected beforehand:  [p for p in positions() if C]
+            d_ = w.single_def(e.loops[-1][1].id)
+            lc_ = d_[1] if d_ is not None and d_[0] == 'value' else None
+            if isinstance(lc_, ast.ListComp) and len(lc_.generators) == 1 and \
+                    isinstance(lc_.generators[0].target, ast.Name) and \
+                    src(lc_.elt) == lc_.generators[0].target.id and \
+                    src(lc_.generators[0].iter) in (f'{g}.area.positions()',
+                                                    f"{g}.area.positions('all')") and \
+                    d_[2] > pipe.grid_def_order:
+                import copy
+                from ..inline import _Rename
+                loop_ok = True
+                ren_ = _Rename({lc_.generators[0].target.id: pos})
+                for c_ in lc_.generators[0].ifs:
+                    extra_parts.append(w.expand_formula(
+                        formula_of(ren_.visit(copy.deepcopy(c_))), stop=[g, pipe.vis_name, pos]))
         if not loop_ok and len(e.loops) >= 2 and isinstance(e.target.slice, ast.Tuple) and \
                 len(e.target.slice.elts) == 2:
             # nested loops over all rows and all columns of the observation grid
@@ -219,6 +238,8 @@ def masking(index: RepoIndex, rep, rule: str, pipe: Pipeline) -> None:
                 loop_ok, yx = True, (ty, tx)
         conj = w.expand_formula(strip_iter(e.guard), stop=[g, pipe.vis_name])
         parts = list(conj[1:]) if conj[0] == 'and' else ([] if conj == ('true',) else [conj])
+        for xp in extra_parts:
+            parts += list(xp[1:]) if xp[0] == 'and' else ([] if xp == ('true',) else [xp])
         vis_parts, other = [], []
         for p in parts:
             neg = p[0] == 'not'
